@@ -12,6 +12,7 @@ import (
 	"fmt"
 	"net"
 	"os"
+	"strings"
 	"time"
 
 	"github.com/varlink/go/varlink"
@@ -53,6 +54,8 @@ func acConn(transport string) (*varlink.Connection, net.Conn, error) {
 	if err != nil {
 		return nil, nil, err
 	}
+	shrinkBuffers(a) // (a blocked Send needs kernel buffers smaller than its request)
+	shrinkBuffers(b)
 	return varlink.VerifNewConnection(a), b, nil
 }
 
@@ -66,9 +69,15 @@ func runApiCancel(log *tr.Log, sc *acScen, raw []byte) {
 	}
 	defer peer.Close()
 	defer func() { go conn.Close() }()
-	// the scripted server swallows requests and says nothing until told
+	// the scripted server swallows requests and says nothing until told; for a blocked Send it does
+	// not even read until the cancelled Send has returned
+	startReading := make(chan struct{})
+	if sc.Api != "send" {
+		close(startReading)
+	}
 	go func() {
-		br := bufio.NewReader(peer)
+		<-startReading
+		br := bufio.NewReaderSize(peer, 1<<20)
 		for {
 			if _, err := br.ReadBytes(0); err != nil {
 				return
@@ -112,6 +121,9 @@ func runApiCancel(log *tr.Log, sc *acScen, raw []byte) {
 	case "call":
 		var out json.RawMessage
 		opErr = conn.Call(opCtx, "a.b.M", map[string]int{"x": 1}, &out)
+	case "send":
+		// 8 MiB of parameters: more than any of the transports buffers
+		_, opErr = conn.Send(opCtx, "a.b.M", map[string]string{"x": strings.Repeat("v", 8<<20)}, 0)
 	default:
 		recv, err := conn.Upgrade(sendCtx, "a.b.M", map[string]int{"x": 1})
 		if err != nil {
@@ -122,6 +134,9 @@ func runApiCancel(log *tr.Log, sc *acScen, raw []byte) {
 		}
 	}
 	lat := time.Since(cancelAt)
+	if sc.Api == "send" {
+		close(startReading)
+	}
 	ev["prompt"] = lat < 2*time.Second
 	ev["latency_ms"] = lat.Milliseconds()
 	ev["err"] = errClass(opErr)
